@@ -70,9 +70,12 @@ _RE_PROP = re.compile(r"^Error: (Temporal properties were violated|Action proper
 _RE_COV = re.compile(r"^<(\w+) line (\d+), col \d+ to line \d+, col \d+ of module (\w+)>: (\d+):(\d+)")
 
 
-def _java_cmd(heap="8g"):
-    return ["java", "-XX:+UseParallelGC", "-Xmx" + heap,
-            "-cp", TLA_JAR + ":" + CM_JAR, "tlc2.TLC"]
+def _java_cmd(heap="8g", tmpdir=None):
+    cmd = ["java", "-XX:+UseParallelGC", "-Xmx" + heap]
+    if tmpdir:          # TLC leaves a tlc-<n> directory per run in java.io.tmpdir: keep it inside the scratch dir
+        os.makedirs(tmpdir, exist_ok=True)
+        cmd.append("-Djava.io.tmpdir=" + tmpdir)
+    return cmd + ["-cp", TLA_JAR + ":" + CM_JAR, "tlc2.TLC"]
 
 
 def run_tlc(module, cfg_text, workdir, env=None, workers=16, timeout=1800,
@@ -90,7 +93,7 @@ def run_tlc(module, cfg_text, workdir, env=None, workers=16, timeout=1800,
         f.write(cfg_text)
     meta = os.path.join(workdir, "meta_" + module)
     shutil.rmtree(meta, ignore_errors=True)
-    cmd = _java_cmd(heap) + ["-workers", str(workers), "-metadir", meta,
+    cmd = _java_cmd(heap, os.path.join(workdir, "jtmp")) + ["-workers", str(workers), "-metadir", meta,
                              "-noGenerateSpecTE", "-config", cfg]
     if not deadlock:
         cmd += ["-deadlock"]
